@@ -258,14 +258,15 @@ def oracle(ck, tier, deep):
         ck.count(("S.topes", K % 5, dr, pe is None, vrep is None), suite="S.toPES")
         keep = inten.copy()
         vmi.toPES(radial, inten, c)                      # a first conversion of the same profile (another calibration) …
-        E, P = vmi.toPES(radial, inten, c, photon_energy=pe, Vrep=vrep)          # … must not have consumed it
+        zoom = 1 if rng.random() < 0.4 else float(rng.choice([0.5, 2.0, 501 / 2048]))          # (with or without a repeller voltage)
+        E, P = vmi.toPES(radial, inten, c, photon_energy=pe, Vrep=vrep, zoom=zoom)          # … must not have consumed it
         if not np.array_equal(inten, keep):
             ck.violation(dict(site="toPES", clause="argument-modified"), dict(K=K, dr=dr, c=c), "toPES modified the intensity array passed to it")
             inten = keep
         lhs = np.sum((P[1:] + P[:-1]) / 2 * np.diff(E))
         rhs = np.sum((inten[1:] + inten[:-1]) / 2 * np.diff(radial))
         if abs(abs(lhs) - rhs) > 1e-12 * rhs:
-            ck.violation(dict(site="toPES", clause="conservation"), dict(K=K, dr=dr, c=c, photon_energy=pe, Vrep=vrep),
+            ck.violation(dict(site="toPES", clause="conservation"), dict(K=K, dr=dr, c=c, photon_energy=pe, Vrep=vrep, zoom=zoom),
                          f"integrated PES {lhs:.12g} vs integrated intensity {rhs:.12g}")
     # … and the Jacobian dE = 2 c r dr is linear in the calibration factor: c·P is the same spectrum for every c, sample by sample —
     # also for profiles that do not vanish on the axis (avg-type profiles, central spots, grids not starting at r = 0)
